@@ -2,6 +2,7 @@
 //!   text cktab <seed>            complete/behavioural tabulation of the real checksum engine as a Coq file
 //!   text cksub <seed> [tier]     substitution campaign against the real `Descriptor::from_str`
 //!   text tree  <seed> [tier]     expression-tree parser observations (Coq file)
+//!   text mstext <seed> [tier]    miniscript text layer (from_tree / Display) observations (Coq file)
 //!   text rt    <seed> [tier]     differential round trips of descriptors, miniscripts, policies, keys
 //! Every random choice derives from one splitmix64 state seeded by <seed>.
 use std::fmt::Write as _;
@@ -13,6 +14,8 @@ mod ck;
 mod rt;
 #[path = "text_tree.rs"]
 mod tree;
+#[path = "text_ms.rs"]
+mod mstext;
 
 pub struct Rng(pub u64);
 impl Rng {
@@ -96,6 +99,8 @@ pub fn run(args: &[String]) {
         "ckmitm" => ck::mitm(seed, &tier),
         "tree" => tree::run(seed, &tier),
         "treeobs" => tree::observe_file(args.get(3).map(|s| s.as_str())),
+        "mstext" => mstext::run(seed, &tier),
+        "mstextobs" => mstext::observe_file(args.get(3).map(|s| s.as_str())),
         "rt" => rt::run(seed, &tier, args.get(3).map(|s| s.as_str())),
         other => {
             eprintln!("unknown text mode {}", other);
